@@ -12,6 +12,7 @@ import (
 	"github.com/glebziz/fs_db/config"
 	"github.com/glebziz/fs_db/internal/app"
 	"github.com/glebziz/fs_db/internal/di"
+	"github.com/glebziz/fs_db/internal/model"
 	"github.com/glebziz/fs_db/internal/verifhook"
 	"github.com/glebziz/fs_db/pkg/external"
 	"github.com/glebziz/fs_db/pkg/inline"
@@ -107,4 +108,9 @@ func (h *Handle) Close() error {
 	}
 
 	return err
+}
+
+// HasCommittedStore reports whether the committed (main) version store is registered.
+func (h *Handle) HasCommittedStore() bool {
+	return h.c.Core().VerifHasStore(model.MainTxId)
 }
